@@ -5,16 +5,18 @@ SPEC = dict(
                '_end_of_sequence), _parse_integer, _parse_modification, _parse_modifications and the three phases _parse_sequence_start / '
                '_middle / _end of the real recursive-descent parser raise nothing but ValueError-family errors (no IndexError / TypeError / '
                'AttributeError / KeyError obligation survives), keep the cursor invariant 0 <= position <= length == len(text), never move '
-               'backwards, and every loop has a strictly decreasing variant length - position (termination); constructing the format error '
-               'never raises. The two defects of the pinned tree (IndexError for a bracket group at the very end, TypeError for a numeric '
+               'backwards, and every loop has a strictly decreasing variant length - position (termination); the driver generator '
+               '_ProFormaParser.parse (one chain per iteration) is proved to consume text in EVERY iteration (the start phase stops only at '
+               'the end or in front of a residue / an opening parenthesis, which the middle phase then consumes), hence to terminate with the '
+               'whole text consumed, raising nothing but ValueError; constructing the format error never raises. The two defects of the pinned tree (IndexError for a bracket group at the very end, TypeError for a numeric '
                'global modification) are exactly the obligations no-IndexError / no-TypeError of _parse_sequence_start and were repaired. '
-               'BOUNDED (labelled): parse() end to end (the generator driver, _get_result, serialize of the result) over every string of up '
+               'BOUNDED (labelled): parse() end to end (module-level wrapper, _get_result, serialize of the result) over every string of up '
                'to 4 / 5 tokens, sampled longer strings and single-token mutations; deferred validation (mass()/comp() raise for '
                'unresolvable values and for ontology entries without mass and formula).',
     level_note='Assumed (trusted, listed in evidence): the nine _add_* accumulator methods do not touch the cursor and raise at most ValueError; '
                'the Mod constructor (dataclass + convert_type); int(text) raises ValueError or returns; str.isdigit uninterpreted. '
-               'Mod.val is modelled as a str|int|float union (kind tag). The driver _ProFormaParser.parse (generator) and module-level parse() '
-               'are bounded only.',
+               'Mod.val is modelled as a str|int|float union (kind tag). _get_result / _reset_sequence are assumed not to move the cursor; the module-level parse() wrapper (list / '
+               'MultiProFormaAnnotation packaging) is bounded only.',
     design_ref='DESIGN.md section 6, C09',
     contracts=['parser'],
     bounded=[dict(name='C09-bounded', script='bounded/C09.py', timeout=7200)],
